@@ -65,6 +65,12 @@ var c08Misplaced = []faCase{
 	{name: "wellformed-minus-inferred-array",
 		patch: "@@\nvar x expression\n@@\n-[...]int{x}\n+[]int{x}\n",
 		minus: "package p\n\nvar a = ⟦[...]int{«x:1»}⟧\n\nvar b = [1]int{2}\n"},
+	{name: "dots-kind-mismatch-list-to-for",
+		patch: "@@\n@@\n-foo(...)\n+for ... {\n+}\n",
+		minus: "package p\n\nfunc f() {\n\t⟦foo(«d1:1, 2»)⟧\n}\n"},
+	{name: "dots-kind-mismatch-for-to-list",
+		patch: "@@\n@@\n-for ... {\n-\tbar()\n-}\n+foo(...)\n",
+		minus: "package p\n\nfunc f() {\n\t⟦for i := 0; i < 3; i++ {\n\t\tbar()\n\t}⟧\n}\n"},
 	{name: "ident-mv-everywhere-is-fine", idents: []string{"v"},
 		patch: "@@\nvar v identifier\n@@\n-foo(v)\n+x.v\n",
 		minus: "package p\n\nvar a = ⟦foo(«v:name»)⟧\n"},
